@@ -146,6 +146,27 @@ Theorem C19_recv_queued_full_alone : forall (V : Type) (zero : V) (b : list V) (
 Proof. exact @recv_queued_full_alone. Qed.
 Print Assumptions C19_recv_queued_full_alone.
 
+(* ---- frame and enabledness ---- *)
+
+(* the helper changes the world only through operations recorded in its part
+   of the log: a step that logs nothing leaves channel, queues, closed flag,
+   timer and log exactly as they were (so "returned false" = channel untouched) *)
+Theorem C19_no_log_no_change : forall (V : Type) (zero : V) (choice : bool) (w : world V) (p : pc V) (w' : world V) (p' : pc V),
+  hstep zero choice w p = Some (w', p') ->
+  sent_by Helper (log w') = sent_by Helper (log w) ->
+  rcvd_by Helper (log w') = rcvd_by Helper (log w) -> w' = w.
+Proof. exact @no_log_no_change. Qed.
+Print Assumptions C19_no_log_no_change.
+
+(* a fired timer / cancelled context always lets a select helper return; a
+   helper without limit is blocked exactly while the channel is not ready *)
+Theorem C19_enabledness : forall (V : Type) (zero : V) (choice : bool) (w : world V) (v : V),
+  (done w = true -> hstep zero choice w (PSendSelect v) <> None /\ hstep zero choice w PRecvSelect <> None) /\
+  (hstep zero choice w (PSendBlock v) = None <-> try_send Helper v w = WouldBlock) /\
+  (hstep zero choice w PRecvBlock = None <-> try_recv zero Helper w = None).
+Proof. exact @enabledness. Qed.
+Print Assumptions C19_enabledness.
+
 (* ---- non-vacuity: concrete runs of the machine ---- *)
 
 (* the hypothesis [wf] is satisfiable: full buffer with a parked sender; unbuffered with two parked receivers; closed with a value left *)
